@@ -37,6 +37,10 @@ TEXTBOOK = {
     "rr-ambiguous-dir": G + 'start = aa | bb;\naa = "x";\nbb = "x";\n@left <aa = "x">;\n@left <bb = "x">;\n',
     "juxtapose": G + 'start = e;\ne = e e | "x";\n',
     "juxtapose-left": G + 'start = e;\ne = e e | "x";\n@left <e = e e>;\n@left "x";\n',
+    "juxtapose-left-first": G + '@left <e = e e>;\n@left "x";\nstart = e;\ne = e e | "x";\n',
+    "juxtapose-right": G + 'start = e;\ne = e e | "x";\n@right <e = e e>;\n@right "x";\n',
+    "handle-between": G + 'e = e e | e "+" e | "x";\n@left <e = e e>;\nstart = e;\n@left "+";\n@left "x";\n',
+    "two-handles": G + 'start = e;\ne = e e | e f | "x";\nf = "y";\n@left <e = e e> <e = e f>;\n@left "x" "y";\n',
     "unary": G + 'start = e;\ne = "-" e | e "-" e | "x";\n@left "-";\n',
     "empty-amb": G + 'start = aa aa;\naa = "a" | ;\n',
     "eps-cycle": G + 'start = start start | "a" | ;\n',
@@ -100,6 +104,37 @@ def generated(ck, n, n_ebnf):
     for t, sp in zip(texts, specs):
         t["fam"], t["decls"] = sp["fam"], sp["decls"]
     return texts, len(bodies)
+
+
+def declared_levels(text):
+    """The precedence levels as the TEXT of a specification declares them (one level per directive, in order; handles in
+    order): the reference for the table is what was written, not what spec.Parse recorded.  Returns None when a directive
+    uses anything but strings, TOKEN names and <rule = symbols> handles without operators."""
+    import re
+    levels = []
+    for m in re.finditer(r'@(left|right|none)\s+([^;]*);', text):
+        lv = {"assoc": m.group(1), "terms": [], "prods": []}
+        for h in re.findall(r'"(?:[^"\\]|\\.)*"|<[^>]*>|[A-Za-z_][A-Za-z0-9_]*', m.group(2)):
+            if h.startswith('"'):
+                lv["terms"].append("t:" + h[1:-1])
+            elif h.startswith("<"):
+                mm = re.fullmatch(r'<\s*([a-z][a-z0-9_]*)\s*=\s*(.*?)\s*>', h)
+                if not mm or re.search(r'[\[\]{}()|]', mm.group(2)):
+                    return None
+                body = []
+                for y in re.findall(r'"(?:[^"\\]|\\.)*"|[A-Za-z_][A-Za-z0-9_]*', mm.group(2)):
+                    body.append("t:" + y[1:-1] if y.startswith('"') else ("t:" + y if y[0].isupper() else "n:" + y))
+                lv["prods"].append({"h": "n:" + mm.group(1), "b": body})
+            elif h[0].isupper():
+                lv["terms"].append("t:" + h)
+            else:
+                return None
+        levels.append(lv)
+    return levels
+
+
+def norm_levels(levels):
+    return [(lv["assoc"], sorted(lv["terms"]), sorted((p["h"], tuple(p["b"])) for p in lv["prods"])) for lv in levels]
 
 
 TAGS = {"SILENTLYRESOLVED": "a conflict remains after the documented resolution but emerge returned a table",
@@ -167,8 +202,17 @@ def run(ck):
     vp.write_ndjson(os.path.join(ck.work, "tla", "lalr_in.ndjson"), cases)
     ck.run_sharded("lalr-export", "tla/lalr_in.ndjson", "tla/lalr.ndjson", timeout=1800)
     arts = {a["id"]: a for a in vp.read_ndjson(os.path.join(ck.work, "tla", "lalr.ndjson"))}
+    relevelled = 0
     for a in arts.values():
         a["decls"] = decls.get(a["id"], [])
+        # the table is judged against the directives as WRITTEN: where spec.Parse recorded other levels than the text
+        # declares, TLC builds its reference table from the declared ones (and the difference shows as a table difference)
+        if a["fam"] in ("textbook", "op") and not a["perr"]:
+            want = declared_levels(a["text"])
+            if want is not None and norm_levels(want) != norm_levels(a["levels"]):
+                a["levels"] = want
+                relevelled += 1
+    ck.coverage["specs_whose_recorded_levels_differ_from_the_text"] = relevelled
     vp.write_ndjson(os.path.join(ck.work, "tla", "lalr.ndjson"), list(arts.values()))
     nb_built = sum(1 for a in arts.values() if a["built"])
     ck.log("%d grammars: %d tables returned, %d conflict reports" % (len(arts), nb_built, sum(1 for a in arts.values() if a["conflict"])))
